@@ -36,7 +36,8 @@ VARIANTS = [
 ]
 
 for name, solver, method, device in VARIANTS:
-    net = Network(elements=["e", "H", "He", "C", "O"], pseudo_elements=["CR", "Photon"])
+    # four species plus the gas temperature (two cooling processes): NEQUATIONS = NSPECIES + 1
+    net = Network(elements=["e", "H", "He", "C", "O"], pseudo_elements=["CR", "Photon"], cooling=["CIC_HI", "RC_HII"])
     net.add_reaction(Reaction(["H", "H"], ["H2"], alpha=1e-17, reaction_type=ReactionType.GAS_TWOBODY))
     net.add_reaction(Reaction(["H2", "CR"], ["H", "H"], alpha=1.0, reaction_type=ReactionType.GAS_COSMICRAY))
     net.add_reaction(Reaction(["H", "CR"], ["H+", "e-"], alpha=0.5, reaction_type=ReactionType.GAS_COSMICRAY))
